@@ -416,6 +416,8 @@ def generate():
     parts.append(extract_aliases())
     from extract_c12 import extract_c12
     parts.append(extract_c12())
+    from extract_c07 import extract_c07
+    parts.append(extract_c07())
     parts.append("end FormulaeModel.Generated\n")
     return "\n".join(parts), dict(parser=p, resolver=r)
 
